@@ -178,19 +178,22 @@ CHECKS["C18"] = dict(
     design="§4 C18", note=NOTE_BASE + " Uninitialised reads, alignment, integer/shift UB inside the C++ and stack VLAs are outside every model (observed by UBSan/ASan only; no MSan).")
 
 CHECKS["C12"] = dict(
-    text=("PARTIAL BY NATURE. Machine-checked (Props/C12.lean, Lemmas/Bernstein.lean): (1) generic theorem — iterations whose read/write "
-          "footprints satisfy Bernstein's conditions pairwise can be executed in ANY order (any assignment to team members, any team size "
-          "below/at/above the iteration count, any order of members) with the same final memory, whatever the bodies compute inside "
-          "their footprints; (2) Bernstein's conditions, for ALL shapes, for the footprints of all 20 `omp parallel for` loops: NTT "
-          "butterfly batches incl. the transposing and the reflecting (intt_idx, proved injective) copy, block scatter, out-of-place and "
-          "in-place bit reversal (BR proved to be an involutive bit reversal for every domain <= 2^32; swaps only when r < i), Merkle leaf and "
-          "level loops of the six builders (level L read region ends where level L+1 write region starts), parcpy/parSetZero chunks; "
-          "(3) parcpy/parSetZero end to end for every chunk order (C17). NOT proved: that the compiled loop bodies access exactly these "
-          "hand-written footprints. That tie is checked/observed on every run: fingerprint of every parallel loop statement of the current "
-          "source against the text the footprints were written from, no OpenMP construct outside `parallel for`+static schedule; "
-          "ThreadSanitizer over a pthread stand-in for the OpenMP runtime (real accesses, real happens-before); controlled sequential "
-          "execution of team members in permuted orders, team sizes 1,2,3,5,8,64, outputs bit-identical to the one-member run; real libgomp "
-          "teams of 1,2,3,5,16."),
+    text=("PARTIAL BY NATURE. Machine-checked (Props/C12.lean, 30 theorems; Lemmas/Bernstein.lean, NttPar*.lean, MerklePar.lean): "
+          "(1) generic theorem — iterations whose read/write footprints satisfy Bernstein's conditions pairwise can be executed in ANY "
+          "order (any assignment to team members, any team size below/at/above the iteration count, any order of members) with the same "
+          "final memory; (2) Bernstein's conditions, for ALL shapes, for the footprints of all 20 `omp parallel for` loops (NTT butterfly "
+          "batches incl. the transposing and the reflecting copy, block scatter, out-of-place and in-place bit reversal with BR proved "
+          "an involutive bit reversal up to 2^32, Merkle leaf and level loops, parcpy/parSetZero chunks); (3) for the executable NTT MODEL "
+          "(Model/Ntt.lean, the one tied to the code by the differential campaigns of C03-C05): each loop body of passBatch / "
+          "scatterBlock / all four reversePermutation branches provably touches only its footprint and depends only on it, hence "
+          "folding the iterations over ANY permutation equals the model's sequential loop, lifted to whole ntt / intt / extendPol "
+          "calls with arbitrary per-pass, per-block orders (C12_model_*_any_order); Merkle: node dependency of the functional model and "
+          "order independence of an imperative rendering of the tree loops; (4) parcpy/parSetZero end to end for every chunk order "
+          "(C17). NOT proved: that the COMPILED loop bodies access exactly these footprints. That is checked/observed on every run: "
+          "fingerprint of every parallel loop statement of the current source against the text the footprints were written from, no "
+          "OpenMP construct outside `parallel for`+static schedule; ThreadSanitizer over a pthread stand-in for the OpenMP runtime; "
+          "controlled sequential execution of team members in permuted orders, team sizes 1,2,3,5,8,64 and a runtime granting fewer "
+          "members than requested, outputs bit-identical to the one-member run; real libgomp teams of 1,2,3,5,16."),
     technique="Lean 4 proof (Bernstein conditions on modelled footprints + order-independence theorem); TSan / permuted-team-order runs over a stand-in OpenMP runtime as observation",
     design="§4 C12", note=NOTE_BASE + " Footprints are hand-written (modelled, not derived); harness/omp_standin.cpp replaces libgomp for the controlled-order and TSan runs.")
 
